@@ -87,7 +87,26 @@ Lemma ex_flip_inside_rotate_record_refuted :
 Proof. vm_compute. repeat split; reflexivity. Qed.
 
 (* the chain check of the repaired reader, for every header and every carried crc *)
-Lemma read_files_chain_mismatch fx u h r from si eoff ts ev pa ca c :
+Lemma read_files_chain_mismatch fx fe u h r from si eoff ts ev pa ca c :
   h_crc h <> c ->
-  read_files fx true u (h :: r) from si eoff ts ev pa ca (Some c) = {| rr_ev := rev ev; rr_err := ECrc; rr_pos := pa; rr_crc := ca |}.
+  read_files fx true fe u (h :: r) from si eoff ts ev pa ca (Some c) = {| rr_ev := rev ev; rr_err := ECrc; rr_pos := pa; rr_crc := ca |}.
 Proof. intros H. cbn [read_files]. rewrite (proj2 (Z.eqb_neq _ _) H). reflexivity. Qed.
+
+(* F-C18c (residual after repair 059eb856, i.e. fx_rot = fx_chain = true): chunk 0 holds two events (21 and 20 bytes) and
+   its levRotateTo; flipping bit 6 of the first event's length (21 -> 85) makes the damaged event swallow the second event
+   and the levRotateTo record exactly up to the end of the file.  No levRotateTo was seen, so no chunk-to-chunk comparison
+   is made, the crc restarts from chunk 1's header and chunk 1's levRotateTo (whose writer-side crc covers the damage) is
+   accepted.  With fx_eof the crc at the end of chunk 0 is compared with chunk 1's header: checksum error. *)
+Definition ex2_b1 : bytes := repeat 7 21.
+Definition ex2_b2 : bytes := repeat 8 20.
+Definition ex2_b4 : bytes := repeat 5 60.
+Definition ex2_w : wst := fst (w_run 100 (w_init ex_hdr)
+  [(frame ex_u ex2_b1, ex_aux); (frame ex_u ex2_b2, ex_aux); (frame ex_u ex_b2, ex_aux); (frame ex_u ex2_b4, ex_aux)]).
+Lemma ex2_swallow_refuted :
+  let img := flip_files 0 48 6 (image_of ex2_w) in
+  map (fun f => len f) (image_of ex2_w) = [140; 152; 36] /\
+  rr_err (replay4 true true false false ex_u 12345 img 0 None) = ENone /\
+  map (fun e => (fst e, len (snd e))) (applies (rr_ev (replay4 true true false false ex_u 12345 img 0 None))) = [(44, 85); (176, 2); (188, 60)] /\
+  rr_err (replay4 true true true false ex_u 12345 img 0 None) = ECrc /\
+  rr_err (replay4 true true true false ex_u 12345 (image_of ex2_w) 0 None) = ENone.
+Proof. vm_compute. repeat split; reflexivity. Qed.
